@@ -524,7 +524,7 @@ func (s *Sim) byzantine(d *delivery) {
 		}
 	case d.broadcast && d.data[0] == TagAnswer:
 		// a dealer may answer correctly in public and then privately send the complainer a different, well-formed share
-		if di != nil && len(d.data) == 34 && int(d.data[1]) < s.N && g.Chance("shareAfterAnswer", 1, 5) {
+		if di != nil && len(d.data) == 34 && int(d.data[1]) < s.N && g.Chance("shareAfterAnswer", 2, 5) {
 			c := int(d.data[1])
 			x := new(big.Int).SetBytes(d.data[2:])
 			x.Add(x, big.NewInt(1)).Mod(x, scalarR)
